@@ -34,6 +34,68 @@ PURE = {
     r"^(std::time::)?Duration::subsec_millis$": summaries.pure("subsec_millis"),
     r"^(std::time::)?Duration::subsec_nanos$": summaries.pure("subsec_nanos"),
 }
+MT = z3.BitVec("mtime_ms", 64)       # the file's modification time in milliseconds relative to the epoch (signed)
+
+
+def _t_modified(e, st, callee, args, dty):
+    ok = z3.Bool("modified_ok")
+    return [(ok, EnumV("Result", "Ok", 0, {0: Agg("SystemTime", {0: Int(MT, "i64")})})), (z3.Not(ok), EnumV("Result", "Err", 1, {0: Lazy("stat_error", "std::io::Error")}))]
+
+
+def _t_duration_since(e, st, callee, args, dty):
+    """SystemTime::duration_since(t, UNIX_EPOCH): Ok(t - epoch) for t >= epoch, Err(epoch - t) before it"""
+    v = summaries.deref_val(e, st, args[0])
+    if not (isinstance(v, Agg) and v.ty == "SystemTime"):
+        return NotImplemented
+    t = v.fields[0].t
+    return [(t >= 0, EnumV("Result", "Ok", 0, {0: Agg("Duration", {0: Int(t, "u64")})})),
+            (t < 0, EnumV("Result", "Err", 1, {0: Agg("SystemTimeError", {0: Agg("Duration", {0: Int(-t, "u64")})})}))]
+
+
+def _t_dur(f):
+    def g(e, st, callee, args, dty):
+        v = summaries.deref_val(e, st, args[0])
+        if not (isinstance(v, Agg) and v.ty == "Duration" and isinstance(v.fields.get(0), Int)):
+            return NotImplemented
+        return f(v.fields[0].t)
+    return g
+
+
+def _t_err_duration(e, st, callee, args, dty):
+    v = summaries.deref_val(e, st, args[0])
+    if isinstance(v, Agg) and v.ty == "SystemTimeError":
+        return v.fields[0]
+    return NotImplemented
+
+
+def _t_unwrap_or(e, st, callee, args, dty):
+    """Result<Duration, _>::unwrap_or(Duration::ZERO)"""
+    v, d = args[0], args[1]
+    if isinstance(v, EnumV) and v.ty == "Result":
+        if v.variant == "Ok":
+            return v.fields[0]
+        dv = summaries.deref_val(e, st, d)
+        if isinstance(dv, Agg) and dv.ty == "Duration":
+            return dv
+        if "ZERO" in repr(dv) or "Duration" in (dty or ""):
+            return Agg("Duration", {0: Int(z3.BitVecVal(0, 64), "u64")})
+    return NotImplemented
+
+
+TIME = {
+    r"^(std::fs::)?Metadata::modified$|FileMetadata::modified$": _t_modified,
+    r"^(std::time::)?SystemTime::duration_since$": _t_duration_since,
+    r"^(std::time::)?Duration::as_millis$": _t_dur(lambda d: Int(z3.ZeroExt(64, d), "u128")),
+    r"^(std::time::)?Duration::as_secs$": _t_dur(lambda d: Int(z3.UDiv(d, z3.BitVecVal(1000, 64)), "u64")),
+    r"^(std::time::)?Duration::as_micros$": _t_dur(lambda d: Int(z3.ZeroExt(64, d) * 1000, "u128")),
+    r"^(std::time::)?Duration::subsec_millis$": _t_dur(lambda d: Int(z3.Extract(31, 0, z3.URem(d, z3.BitVecVal(1000, 64))), "u32")),
+    r"^(std::time::)?SystemTimeError::duration$": _t_err_duration,
+    r"(^|::)wrapping_neg$": lambda e, st, c, a, d: Int(-a[0].t, a[0].ty) if isinstance(a[0], Int) else NotImplemented,
+    r"(^|::)wrapping_sub$": lambda e, st, c, a, d: Int(a[0].t - a[1].t, a[0].ty) if isinstance(a[0], Int) and isinstance(a[1], Int) else NotImplemented,
+    r"(^|::)wrapping_add$": lambda e, st, c, a, d: Int(a[0].t + a[1].t, a[0].ty) if isinstance(a[0], Int) and isinstance(a[1], Int) else NotImplemented,
+    r"^(std::result::|core::result::)?Result::unwrap_or$": _t_unwrap_or,
+    r"^(std::fs::)?Metadata::len$": summaries.pure("len"),
+}
 INL = r"file::<impl[^>]*>::(len|file_id|deref)$|cache::<impl[^>]*>::modified_timestamp_ms$|^(cache::)?modified_timestamp_ms$"
 
 
@@ -85,8 +147,30 @@ def run():
 def add_obligations(rep, ctx):
     """the cache obligations; also part of C01 and C03 (their statements quantify over 'with or without the hash cache')"""
     prog = ctx.lib
-    eng = oblig.engine(prog, unroll=0, inline=INL, extra=PURE)
+    import optsum as _o0
+    eng = oblig.engine(prog, unroll=0, inline=INL, extra=dict(_o0.SUMMARIES, **TIME))
     fns = lambda: oblig.fnames(eng)
+    # what put stores as the modification time, as a function of the file's mtime (time model above): pieces (condition, term)
+    stored_ms = []
+
+    def only_time(c):
+        names = set()
+
+        def walk(t):
+            if z3.is_const(t) and t.decl().kind() == z3.Z3_OP_UNINTERPRETED:
+                names.add(str(t))
+            for ch in t.children():
+                walk(ch)
+        walk(c)
+        return names <= {"mtime_ms", "modified_ok"}
+
+    def F_of(t):
+        """the stored value for modification time t (pieces of put; 0xdead.. where put stores nothing)"""
+        r = z3.BitVecVal(0xDEADBEEFDEADBEEF, 64)
+        for conds, term in stored_ms:
+            sub = lambda x: z3.substitute(x, (MT, t))
+            r = z3.If(z3.And(*[sub(c) for c in conds]) if conds else z3.BoolVal(True), sub(term), r)
+        return r
     HC = lambda n: prog.method("HashCache", n)
 
     def finish(o, scenario=None):
@@ -112,6 +196,47 @@ def add_obligations(rep, ctx):
         return z3.BoolVal(bool(ok))
     finish(oblig.check_paths(eng, ps, "key = (file id, chunk position, chunk length)", key_prop, fns(), key="cache:key"))
 
+    # ---- pre-pass over put: the stored millisecond value per path
+    for p in eng.run(HC("put")):
+        ins = called(p, r"Tree.*::insert$|::insert$")
+        if not ins or len(ins[0].args) < 3:
+            continue
+        v = summaries.deref_val(eng, _st(p), ins[0].args[2])
+        if isinstance(v, Agg):
+            ms = v.fields.get(prog.src.field_index("CachedFileInfo", "modified_timestamp_ms"))
+            if isinstance(ms, Int):
+                piece = ([c for c in p.pc if only_time(c)], ms.t)
+                if not any(str(piece) == str(q) for q in stored_ms):
+                    stored_ms.append(piece)
+    # different modification times (at millisecond resolution) are stored as different values - otherwise a rewrite that changes the
+    # mtime is served from the cache (the property's proviso is "each content change also changes the mtime (ms) or the length")
+    o_inj = Obligation("put: different modification times (ms) are stored as different values, for every representable time (also before 1970)",
+                       "E2 mirsym/z3 (time model: mtime as a signed 64-bit millisecond count)", fns(), "all 64-bit signed millisecond times")
+    o_inj.key = "cache:mtime-injective"
+    if not stored_ms:
+        o_inj.verdict, o_inj.detail = "inconclusive", "no path of put stores a millisecond value under the time model"
+    else:
+        t1, t2 = z3.BitVec("t1", 64), z3.BitVec("t2", 64)
+        slv = z3.Solver()
+        # (times within +-2^62 ms, far beyond any file system's range, so that the negation in the model cannot overflow)
+        lim = z3.BitVecVal(1 << 62, 64)
+        slv.add(z3.Bool("modified_ok"), t1 != t2, t1 > -lim, t1 < lim, t2 > -lim, t2 < lim, F_of(t1) == F_of(t2))
+        o_inj.queries = 1
+        o_inj.stats = {"paths": len(stored_ms), "states": len(stored_ms), "transitions": 1}
+        r_ = slv.check()
+        if r_ == z3.sat:
+            m_ = slv.model()
+            a, b = m_.eval(t1, model_completion=True).as_signed_long(), m_.eval(t2, model_completion=True).as_signed_long()
+            o_inj.verdict = "violated"
+            o_inj.cex = {"mtime_ms_1": a, "mtime_ms_2": b, "stored": m_.eval(F_of(t1), model_completion=True).as_long()}
+            o_inj.detail = "the modification times %d ms and %d ms (relative to 1970-01-01) are both stored as %d" % (a, b, o_inj.cex["stored"])
+        elif r_ == z3.unsat:
+            o_inj.verdict = "holds"
+            o_inj.witness = "%d pieces" % len(stored_ms)
+        else:
+            o_inj.verdict, o_inj.detail = "inconclusive", "solver: unknown"
+    finish(o_inj, "mtime-ms")
+
     # ---- get
     ps = eng.run(HC("get"))
 
@@ -129,7 +254,8 @@ def add_obligations(rep, ctx):
         base = mirsym.sanitize(g[0].ret.name + "@Ok.0@Some.0")
         st_ms = z3.BitVec(base + ".modified_timestamp_ms", 64)
         st_len = z3.BitVec(base + ".file_len.0", 64)
-        cur_ms = ms_from_events(p)
+        # the value the stored one is compared with is the one put stores for the file's current modification time
+        cur_ms = F_of(MT) if stored_ms else None
         ln = called(p, r"Metadata::len$")
         if cur_ms is None or len(ln) != 1:
             return z3.BoolVal(False)
@@ -157,7 +283,7 @@ def add_obligations(rep, ctx):
         f = prog.src.field_index
         ms, fl = v.fields.get(f("CachedFileInfo", "modified_timestamp_ms")), v.fields.get(f("CachedFileInfo", "file_len"))
         dl, hs = v.fields.get(f("CachedFileInfo", "data_len")), v.fields.get(f("CachedFileInfo", "hash"))
-        cur_ms = ms_from_events(p)
+        cur_ms = ms.t if isinstance(ms, Int) else None        # (what is stored is decided by cache:mtime-injective and cache:get)
         ln = called(p, r"Metadata::len$")
         if cur_ms is None or len(ln) != 1 or not isinstance(ms, Int):
             return z3.BoolVal(False)
